@@ -9,6 +9,7 @@ scheduler (`sched`, any list of thread ids) picks who makes the next micro-step.
 import KrillModel.ES.Lemmas
 import KrillModel.ES.ObsLemmas
 import KrillModel.Sys.Lemmas
+import KrillModel.Sys.AggSerial
 import KrillModel.ES.Reg
 namespace KM.Props.C07
 open KM.ES KM.Sys
@@ -88,52 +89,6 @@ end Generic
 
 section AggStore
 variable {A : Agg}
-
-/-- The serial execution on the level of audit logs: per entity the log, plus the results in
-execution order. -/
-def specSerialStep (st : (Nat → Log A) × List (Nat × Out A)) (a : Acq (aggMachine A)) :
-    (Nat → Log A) × List (Nat × Out A) :=
-  let r := specStep (st.1 a.ent) a.op.toOp
-  (upd st.1 a.ent r.1, st.2 ++ [(a.tid, r.2.getD .panic)])
-
-def specSerial (L0 : Nat → Log A) (order : List (Acq (aggMachine A))) :
-    (Nat → Log A) × List (Nat × Out A) :=
-  order.foldl specSerialStep (L0, [])
-
-theorem runOp_eq_step (c : AggCall A) (s : Ent A) :
-    (aggMachine A).runOp c s = ((step s c.toOp).1, ((step s c.toOp).2).getD .panic) := by
-  cases c <;> rfl
-
-/-- The serial execution of the store model refines the serial execution on logs. -/
-theorem serial_refines (hiv : A.initVersion ≤ 1) (ents0 : Nat → Ent A) (L0 : Nat → Log A)
-    (h0 : ∀ e, Inv (ents0 e) (L0 e)) (order : List (Acq (aggMachine A))) :
-    (∀ e, Inv ((serial ents0 order).ents e) ((specSerial L0 order).1 e)) ∧
-    (serial ents0 order).outs = (specSerial L0 order).2 := by
-  have : ∀ (order : List (Acq (aggMachine A))) (st : SerialSt (aggMachine A))
-      (sp : (Nat → Log A) × List (Nat × Out A)),
-      (∀ e, Inv (st.ents e) (sp.1 e)) → st.outs = sp.2 →
-      (∀ e, Inv ((order.foldl serialStep st).ents e) ((order.foldl specSerialStep sp).1 e)) ∧
-      (order.foldl serialStep st).outs = (order.foldl specSerialStep sp).2 := by
-    intro order
-    induction order with
-    | nil => intro st sp h1 h2; exact ⟨h1, h2⟩
-    | cons a rest ih =>
-      intro st sp h1 h2
-      simp only [List.foldl_cons]
-      apply ih
-      · intro e
-        have hr := step_refines hiv (h1 a.ent) a.op.toOp
-        have hro := runOp_eq_step a.op (st.ents a.ent)
-        simp only [serialStep, specSerialStep, upd]
-        by_cases he : e = a.ent
-        · simp only [he, if_true]; rw [hro]; exact hr.2
-        · simp only [he, if_false]; exact h1 e
-      · have hr := step_refines hiv (h1 a.ent) a.op.toOp
-        have hro := runOp_eq_step a.op (st.ents a.ent)
-        simp only [serialStep, specSerialStep, h2]
-        rw [hro, hr.1]
-        rfl
-  exact this order { ents := ents0 } (L0, []) h0 rfl
 
 /-- **agg_serialisable.**  Threads sending commands, reads and snapshot requests to the same and
 to different entities through any store objects, under any schedule: every entity nobody is
@@ -413,9 +368,6 @@ section Observed
 open KM.ES.Obs
 variable {A : Agg}
 
-theorem oView_cmds {e : Ent A} {L : Log A} (h : Inv e L) (R : Render A) :
-    (oView R e.kv).cmds = renderFrom (oCmd R) 0 L := oCmds_eq h R
-
 /-- `versions_contiguous` / `one_key_per_command`: in every reachable state the stored keys are
 `command-0 … command-(n-1)` (+ `snapshot.json`), record `k` carries version `k`, the first and
 only the first is the init command. -/
@@ -440,33 +392,6 @@ theorem view_wellFormed {e : Ent A} {L : Log A} (h : Inv e L) (R : Render A) :
 theorem view_wellFormed_reachable (hiv : A.initVersion ≤ 1) (ops : List (Op A)) (R : Render A) :
     (oView R (run (Ent.empty : Ent A) ops).kv).wellFormed = true :=
   view_wellFormed (run_refines hiv inv_empty ops) R
-
-/-- Appending a record to the log appends its rendering to the view and changes nothing else. -/
-theorem appendedOne_of_append {e e' : Ent A} {L : Log A} {sc : Stored A} (h : Inv e L)
-    (h' : Inv e' (L ++ [sc])) (R : Render A) (hsnap : e'.kv.snapshot = e.kv.snapshot)
-    (hver : sc.version = L.length) (isErr : Bool) (kind : String)
-    (heff : match (oCmd R L.length sc).effect with
-      | .err k => isErr = true ∧ k = kind
-      | .ok _ => isErr = false
-      | .init _ => False) :
-    appendedOne (oView R e.kv) (oView R e'.kv) sc.actor isErr kind = true := by
-  unfold appendedOne
-  have hc : (oView R e.kv).cmds = renderFrom (oCmd R) 0 L := oView_cmds h R
-  have hc' : (oView R e'.kv).cmds = renderFrom (oCmd R) 0 L ++ [oCmd R L.length sc] := by
-    rw [oView_cmds h' R, renderFrom_append]; simp [renderFrom]
-  have hlen : (renderFrom (oCmd R) 0 L).length = L.length := length_renderFrom _ _ _
-  have hs : (oView R e'.kv).snap = (oView R e.kv).snap := by simp [oView, oSnap, hsnap]
-  rw [hc, hc', hs, hlen]
-  rw [List.take_left' hlen, List.drop_left' hlen]
-  simp only [beq_self_eq_true, Bool.true_and]
-  have h1 : (oCmd R L.length sc).key = L.length := rfl
-  have h2 : (oCmd R L.length sc).version = L.length := hver
-  have h3 : (oCmd R L.length sc).actor = sc.actor := rfl
-  simp only [h1, h2, h3, beq_self_eq_true, Bool.true_and]
-  cases hE : (oCmd R L.length sc).effect with
-  | init s => rw [hE] at heff; exact heff.elim
-  | ok s => rw [hE] at heff; simp [heff]
-  | err k => rw [hE] at heff; simp [heff.1, heff.2]
 
 /-- `rejected_only_audit` on observations. -/
 theorem rejected_only_audit_obs (hiv : A.initVersion ≤ 1) {e : Ent A} {L : Log A} (h : Inv e L)
